@@ -704,6 +704,11 @@ class World:
         """A main thread pushes a message to one of its proxies."""
         self.channels.setdefault((src, dst), collections.deque()).append(message)
         kind, (_, body) = message[0], message[1]
+        if kind == sp.InternalEventHeaders.PUBLICATION:
+            for m in self.monitors:
+                f = getattr(m, 'on_publish', None)
+                if f:
+                    f(self, src, dst, body)
         if kind == sp.InternalEventHeaders.REQUEST:
             rec = {'step': self.step, 'src': src, 'dst': dst, 'req': RequestHeaders(body[0]).name,
                    'args': body[1], 'cause': self.cause}
